@@ -143,7 +143,7 @@ class Run(object):
         with open(path, "w") as f:
             f.write(script)
         try:
-            p = subprocess.run([REAL_PY, path], capture_output=True, text=True, timeout=120,
+            p = subprocess.run([REAL_PY, path], capture_output=True, text=True, timeout=60,
                                env=dict(os.environ, PYTHONPATH="/repo"))
             out = p.stdout + p.stderr
             reproduced = expect_marker in p.stdout
